@@ -214,7 +214,7 @@ def _call(args):
 # interpreter started in that "hostile" environment; the job function and its arguments travel by pickle, the
 # resulting Part comes back by pickle.  Failures seen there carry the key prefix "env-hostile:" and replay there.
 HOSTILE_ENV = {"PYTHONHASHSEED": "4242", "VERIF_ENVMODE": "hostile"}
-HOSTILE_WHAT = "python -O, DEBUG logging on the root and chmpy loggers, PYTHONHASHSEED=4242, another working directory, numpy print options precision=0/threshold=4"
+HOSTILE_WHAT = "python -O, DEBUG logging on the root and chmpy loggers, another PYTHONHASHSEED (cycling through 8 values), another working directory, numpy print options precision=0/threshold=4"
 HOSTILE_MAX_JOBS = 8
 
 
@@ -242,7 +242,10 @@ def _hostile_main(infile, outfile):
     pickle.dump(part, open(outfile, "wb"))
 
 
-def run_hostile(fn, chunk, kw):
+HOSTILE_HASH_SEEDS = ("4242", "2", "5", "7", "1", "3", "11", "13")
+
+
+def run_hostile(fn, chunk, kw, index=0):
     """execute fn(part, chunk, **kw) in a fresh interpreter in the hostile environment; returns the Part (or one holding a harness failure)"""
     import pickle
     import subprocess
@@ -256,7 +259,7 @@ def run_hostile(fn, chunk, kw):
         pickle.dump((fn.__module__, fn.__name__, chunk, kw), open(os.path.join(d, "in.pkl"), "wb"))
         code = "import sys; sys.path[:0] = [%r, %r]; from mc import core; core._hostile_main(sys.argv[1], sys.argv[2])" % (VERIF, REPO_SRC)
         r = subprocess.run([sys.executable, "-O", "-B", "-c", code, os.path.join(d, "in.pkl"), os.path.join(d, "out.pkl")],
-                           capture_output=True, text=True, env=dict(os.environ, **HOSTILE_ENV), cwd=d)
+                           capture_output=True, text=True, env=dict(os.environ, **dict(HOSTILE_ENV, PYTHONHASHSEED=HOSTILE_HASH_SEEDS[index % len(HOSTILE_HASH_SEEDS)])), cwd=d)
         if r.returncode != 0 or not os.path.exists(os.path.join(d, "out.pkl")):
             part = Part()
             part.fail("harness:hostile-interpreter", "the fresh interpreter for %s failed: %s" % (fn.__name__, r.stderr[-300:]), {"kind": "harness"})
@@ -270,6 +273,7 @@ def run_hostile(fn, chunk, kw):
         if not key.startswith("harness:"):
             case = dict(case) if isinstance(case, dict) else {"case": case}
             case["__env__"] = "hostile"
+            case["__hashseed__"] = HOSTILE_HASH_SEEDS[index % len(HOSTILE_HASH_SEEDS)]
             part.failures[i] = ("env-hostile:" + key, what + " [in a fresh interpreter with " + HOSTILE_WHAT + "]", case)
     part.counters["hostile_env_jobs"] = part.counters.get("hostile_env_jobs", 0) + 1
     return part
@@ -340,11 +344,11 @@ class Ctx(Part):
                 p = Part()
                 guarded(fn, p, c, kw)
                 self.merge(p)
-            for c in sample:
-                self.merge_hostile(run_hostile(fn, c, kw))
+            for i, c in enumerate(sample):
+                self.merge_hostile(run_hostile(fn, c, kw, i))
             return
         with mp.get_context("fork").Pool(nproc) as pool:
-            hostile = pool.map_async(_call_hostile, [(fn, c, kw) for c in sample], chunksize=1) if sample else None
+            hostile = pool.map_async(_call_hostile, [(fn, c, kw, i) for i, c in enumerate(sample)], chunksize=1) if sample else None
             for p in pool.imap(_call, [(fn, c, kw) for c in chunks], chunksize=1):
                 self.merge(p)
             if hostile is not None:
@@ -358,11 +362,13 @@ class Ctx(Part):
         part.extra = []
         self.merge(part)
 
-    def hostile(self, fn, chunk=None, **kw):
-        """run fn(part, chunk, **kw) here AND once more in the hostile environment (for work done outside pmap)"""
+    def hostile(self, fn, chunk=None, all_hash_seeds=False, **kw):
+        """run fn(part, chunk, **kw) here AND once more in the hostile environment (for work done outside pmap); with
+        all_hash_seeds once per hash seed of the cycle (for code whose behaviour could depend on set / dict iteration order)"""
         guarded(fn, self, chunk, kw)
         if os.environ.get("VERIF_ENVMODE") != "hostile" and not os.environ.get("VERIF_NO_HOSTILE"):
-            self.merge_hostile(run_hostile(fn, chunk, kw))
+            for i in (range(len(HOSTILE_HASH_SEEDS)) if all_hash_seeds else (0,)):
+                self.merge_hostile(run_hostile(fn, chunk, kw, i))
 
     def cap(self, what):
         self.exhaustive = False
